@@ -118,6 +118,12 @@ func EvalOrder(fn *ssa.Function, atoms AtomFn, assign map[string]int64, seenAtom
 		if r, ok := env[v]; ok {
 			return r, nil
 		}
+		switch f := v.(type) {
+		case *ssa.Function:
+			return OVal{Kind: 'n', I: 1, Atom: "func:" + f.Name()}, nil
+		case *ssa.MakeClosure:
+			return OVal{Kind: 'n', I: 1, Atom: "closure:" + f.Fn.Name()}, nil
+		}
 		if name, ok := atoms(v); ok {
 			if seenAtoms != nil {
 				seenAtoms[name] = true
@@ -166,6 +172,9 @@ func EvalOrder(fn *ssa.Function, atoms AtomFn, assign map[string]int64, seenAtom
 				if err != nil {
 					return nil, err
 				}
+				if a.Kind == 'p' || b.Kind == 'p' {
+					return nil, fmt.Errorf("comparison of a value outside the order fragment")
+				}
 				r := OVal{Kind: 'b'}
 				t := false
 				switch x.Op {
@@ -212,9 +221,18 @@ func EvalOrder(fn *ssa.Function, atoms AtomFn, assign map[string]int64, seenAtom
 				if _, ok := atoms(x); ok {
 					continue
 				}
+				if x.Op == token.MUL {
+					// a load that is not an atom: opaque ("poison") — it may be stored or returned but
+					// never compared or branched on
+					env[x] = OVal{Kind: 'p', Atom: "load"}
+					continue
+				}
 				a, err := eval(x.X)
 				if err != nil {
 					return nil, err
+				}
+				if a.Kind == 'p' {
+					return nil, fmt.Errorf("operation on a value outside the order fragment")
 				}
 				switch x.Op {
 				case token.NOT:
@@ -256,13 +274,16 @@ func EvalOrder(fn *ssa.Function, atoms AtomFn, assign map[string]int64, seenAtom
 				// opaque call producing a value: only allowed when the result is an error/opaque
 				// object that is merely returned (e.g. errors.New, fmt.Errorf)
 				env[x] = OVal{Kind: 'n', I: 1, Atom: "call:" + CalleeName(&x.Call)}
-			case *ssa.Alloc, *ssa.Store, *ssa.FieldAddr, *ssa.Field, *ssa.IndexAddr, *ssa.DebugRef, *ssa.Slice, *ssa.MakeSlice:
+			case *ssa.Alloc, *ssa.Store, *ssa.FieldAddr, *ssa.Field, *ssa.IndexAddr, *ssa.DebugRef, *ssa.Slice, *ssa.MakeSlice, *ssa.MakeClosure:
 				// only meaningful if later read as an atom
 				continue
 			case *ssa.If:
 				c, err := eval(x.Cond)
 				if err != nil {
 					return nil, err
+				}
+				if c.Kind == 'p' {
+					return nil, fmt.Errorf("branch on a value outside the order fragment")
 				}
 				prev = blk
 				if c.I != 0 {
